@@ -1467,7 +1467,7 @@ def budget(tier, prop=None):
     if tier == 'quick':
         return {'runs': QUICK_RUNS.get(_BUDGET_PROP[0], 24000), 'wall': 70, 'chunk': 100, 'selftest': 8, 'minimise_s': 60,
                 'canary_runs': 8000, 'canary_wall': 60}
-    return {'runs': 400000, 'wall': 1200, 'chunk': 200, 'selftest': 24, 'minimise_s': 180,
+    return {'runs': 400000, 'wall': 900, 'chunk': 200, 'selftest': 24, 'minimise_s': 180,
             'canary_runs': 8000, 'canary_wall': 60}
 
 
